@@ -1522,13 +1522,6 @@ class StateEngine(object):
                             )
 
                             """
-                            Tidy up self.branch_metadata for current execution_arn
-                            before republishing the Task state event.
-                            """
-                            if execution_arn in self.branch_metadata:
-                                self.check_pending_results(execution_arn)
-
-                            """
                             Republish the Task state event with the new
                             RetryCount and RetryTimeout set. We also adjust
                             EnteredTime above. The ASL spec is unclear on
@@ -1544,6 +1537,20 @@ class StateEngine(object):
                             """
                             self.event_dispatcher.publish(event)
                             retry_matched = True
+
+                            """
+                            Tidy up self.branch_metadata for current execution_arn
+                            once the retry event has been republished. This is
+                            only relevant when the state being retried is a
+                            failed Map or Parallel state, where the results and
+                            held events of its terminated branches/iterations
+                            are finished with. When a Task inside a Branch or
+                            Iterator is retried the results already collected
+                            from sibling branches must be retained.
+                            """
+                            if ((state_type == "Map" or state_type == "Parallel")
+                                and execution_arn in self.branch_metadata):
+                                self.check_pending_results(execution_arn)
 
                         break
 
